@@ -78,6 +78,10 @@ def finish(prop, tier, seed, parts, t0, design_ref=""):
         for o in p["obligations"]:
             if o.get("status") == "inconclusive":
                 inconcl.append("%s: obligation %s inconclusive (%s)" % (p["part"], o["id"], o.get("note", "")))
+        # consistency: an obligation marked violated must be backed by a reported violation of this part (new or known);
+        # otherwise the counterexample got lost on the way and the run is not a pass
+        if any(o.get("status") == "violated" for o in p["obligations"]) and not p["violations"]:
+            inconcl.append("%s: an obligation is marked violated but no counterexample was recorded" % p["part"])
     obl = [dict(o, part=p["part"]) for p in parts for o in p["obligations"]]
     n_paths = sum(p["paths"] for p in parts)
     queries = sum(p["queries"] for p in parts)
